@@ -548,7 +548,7 @@ namespace c08
         auto pool = [](auto tag, const char* nm, std::size_t ns, std::size_t nodes) {
             using P = typename decltype(tag)::type;
             auto bs = r16(P::min_block_size(ns, nodes));
-            return mk_real<P>(fmt("%s(node %zu, %zu nodes/block)", nm, ns, nodes), [=](void* m, int id) { return ::new (m) P(ns, bs, id); });
+            return mk_real<P>(fmt("%s(node %zu, block %zu bytes)", nm, ns, bs), [=](void* m, int id) { return ::new (m) P(ns, bs, id); });
         };
         std::vector<leaf_cfg> v;
         v.push_back({"iii", {new slot_backend(48), new slot_backend(32), new slot_backend(1008)}});
@@ -731,14 +731,14 @@ namespace c08
                             used_fallback = true;
                         else if (used_fallback)
                             bump("p2_default_serves_again_after_running_full");
-                        class_keys().insert(fmt("%s|alloc|%d|leaf%d|%d", name().c_str(), op, served, int(live.size())));
+                        if (counting()) class_keys().insert(fmt("%s|alloc|%d|leaf%d|%d", name().c_str(), op, served, int(live.size())));
                     }
                     else if (!p)
                     {
                         bump(threw ? "p2_alloc_threw" : "p2_try_alloc_null");
-                        class_keys().insert(fmt("%s|alloc|%d|none", name().c_str(), op));
+                        if (counting()) class_keys().insert(fmt("%s|alloc|%d|none", name().c_str(), op));
                     }
-                    res = p ? fmt("memory of leaf<%d>", served) : threw ? "exception" : "null";
+                    if (verbose) res = p ? fmt("memory of leaf<%d>", served) : threw ? "exception" : "null";
                 }
                 else if (op == 50)
                 {
@@ -755,8 +755,8 @@ namespace c08
                         fail("outsider-memory-accepted", "try_deallocate_node of the composition returned true for memory none of its allocators handed out");
                         bad = true;
                     }
-                    class_keys().insert(fmt("%s|outsider|%d", name().c_str(), r ? 1 : 0));
-                    res = r ? "true" : "false";
+                    if (counting()) class_keys().insert(fmt("%s|outsider|%d", name().c_str(), r ? 1 : 0));
+                    if (verbose) res = r ? "true" : "false";
                 }
                 else
                 {
@@ -791,8 +791,8 @@ namespace c08
                         bad = true;
                     live.erase(live.begin() + idx);
                     bump(l.leaf == 0 ? "p2_released_to_default" : "p2_released_to_fallback");
-                    class_keys().insert(fmt("%s|release|%d|%d|leaf%d", name().c_str(), int(l.s.array), int(l.s.count), l.leaf));
-                    res = "released to leaf<" + std::to_string(where) + ">";
+                    if (counting()) class_keys().insert(fmt("%s|release|%d|%d|leaf%d", name().c_str(), int(l.s.array), int(l.s.count), l.leaf));
+                    if (verbose) res = "released to leaf<" + std::to_string(where) + ">";
                     if (!bad && live.empty())
                     {
                         bump("p2_everything_released");
@@ -835,7 +835,8 @@ namespace c08
                 }
                 if (verbose)
                     std::printf("      -> %s\n", res.c_str());
-                out.trace += op_name(op) + " -> " + res + "; ";
+                if (verbose)
+                    out.trace += op_name(op) + " -> " + res + "; ";
             }
             cur_step = 1000;
             if (!bad)
